@@ -232,7 +232,7 @@ CHECKS['C11'] = dict(
     level='exploration',
     rule='(a) single-threaded: listeners and predicates running inside process/processOne/processIf/processUntil (nested to depth 2) call emptyQueue() and waitFor(0) '
          'and the result is compared with the model (pending non-empty or a processing call in progress => not empty); (b) concurrent: 1-2 observer threads spin on emptyQueue()/waitFor(0) while '
-         'producers enqueue and consumers run process/processOne/takeEvent/clearEvents under the perturbing policy; every call and every ledger transition carries a tick from one global atomic clock; '
+         'producers enqueue and consumers run process/processOne/processIf/processUntil/takeEvent/clearEvents under the perturbing policy (EventQueue with std::list and OrderedQueueList, std::mutex and SpinLock, HeterEventQueue); every call and every ledger transition carries a tick from one global atomic clock; '
          'offline join: an observation "empty" [tc,tr] is a violation if an event whose enqueue returned before tc was fully consumed (end of its listener / start of the take or clear call) only after tr; '
          'non-trivial: (a) as C05, (b) distinct lock-order hashes; the run reports how many observations had prior events',
     jobs=JS('drv_queue', 'asan', 'c11', 2100, 100000, MQ, shards=4)
@@ -383,6 +383,8 @@ def _c20_jobs():
     vg = ['valgrind', '-q', '--error-exitcode=99', '--undef-value-errors=yes', '--track-origins=no']
     for drv, mask in (('drv_cblist', 0x100), ('drv_dispatch', 0x8000), ('drv_queue', 0x80)):
         jobs.append(J(drv, 'm-gcc-11-O0', 'c20', 16, 400, defs=['-DVF_CFG_MASK=0x%x' % mask], opts={'noprefill': '1'}, wrapper=vg, seed_offset=7, shards=8, shards_thorough=16, label='memcheck'))
+    # prior memory for AnyId keys (default-initialised ids in pre-filled storage)
+    jobs.append(J('drv_anyid', 'asan17', 'mixed', 2400, 60000, seed_offset=9, shards=8, shards_thorough=16, label='anyid'))
     return jobs
 
 
